@@ -13,7 +13,11 @@
 //   truncate  : for EVERY object and EVERY k in [0,len): the real reader is run on the first k bytes; it must throw or
 //               leave the stream failed. A prefix that ends strictly inside a nested object (parameter inside a vector,
 //               feature, tensor, weak learner inside a model) is counted as non-trivial.
-//   corrupt   : every tensor stream, every byte position, b -> b^0x01, b^0x80, ~b: the reader must report failure.
+//   corrupt   : every tensor stream (stand-alone and nested in weak learner / linear / boosting streams), every byte
+//               position, b -> b^0x01, b^0x80, ~b: the reader must report failure. Not judged (counted as outcome
+//               "accepted:empty-tensor-reshaped(not judged)"): a dims byte of a tensor WITHOUT elements was altered and the
+//               reader produced another well-formed empty tensor (all dims >= 0, no elements) - there is no payload to
+//               protect. Any other acceptance (payload, any field of a non-empty tensor, a negative dim) is a violation.
 //
 // --rlimit-mb N caps the address space (RLIMIT_AS): a garbage size field then produces std::bad_alloc (= rejection)
 // instead of an OOM kill. Not usable under ASan (its shadow needs terabytes of address space): the asan stages run
@@ -269,6 +273,7 @@ struct entry_t
     size_t rank{0};
     size_t scalar_size{0};
     bool   empty_tensor{false};
+    std::function<std::vector<tensor_size_t>(const char*, size_t)> read_back_dims; ///< dims of the tensor the reader produced
 };
 using rentry_t = std::shared_ptr<entry_t>;
 
@@ -368,6 +373,12 @@ rentry_t tensor_entry(const std::vector<tensor_size_t>& shape, const std::string
     {
         tensor_mem_t<T, R> x;
         ::nano::read(is, x);
+    };
+    e->read_back_dims = [](const char* data, const size_t size)
+    {
+        tensor_mem_t<T, R> x;
+        guarded(data, size, [&](std::istream& is) { ::nano::read(is, x); });
+        return std::vector<tensor_size_t>(x.dims().begin(), x.dims().end());
     };
     e->roundtrip = [tensor](const entry_t& self) -> std::string
     {
@@ -1334,6 +1345,9 @@ corpus_t make_corpus(const args_t& args)
         for (size_t type = 0; type < SCALARS.size(); ++type)
         {
             const auto* shapes = &c.shapes;
+            // NB: the content of a tensor is a fixed function of (position of its shape in the tier's shape list, scalar
+            //     type, element index): no randomness, the same bytes in every run and every shard. Violation keys that name
+            //     an input (accepted payload corruptions) stay valid as long as the shape lattice of the tier is not changed.
             corpus.push_back({"tensor", false, [=]() { return make_tensor(type, (*shapes)[s], s * 10 + type); }});
         }
     }
@@ -1428,14 +1442,71 @@ void announce(const std::string& tag, const uint64_t index)
     std::fflush(stderr);
 }
 
+const char* const PATTERN_NAMES[] = {"^0x01", "^0x80", "~b"};
+
+/// "[d0xd1x...]" of a dims list
+std::string dims_text(const std::vector<tensor_size_t>& dims)
+{
+    std::string o = "[";
+    for (size_t i = 0; i < dims.size(); ++i)
+    {
+        o += (i ? "x" : "") + std::to_string(dims[i]);
+    }
+    return o + "]";
+}
+
 const char* tensor_field(const size_t rank, const size_t p)
 {
     const auto dims_end = 8 + 4 * rank;
     return p < 4 ? "version" : p < 8 ? "rank" : p < dims_end ? "dims" : p < dims_end + 4 ? "sizeof-scalar" : p < dims_end + 12 ? "hash" : "payload";
 }
 
+/// The one accepted corruption that is NOT judged (coordinator's decision, see the check's assumptions): a byte of the
+/// dims field of a tensor WITHOUT elements was altered and the reader produced another well-formed empty tensor (all dims
+/// >= 0, no elements). The statement promises failure for altered payload bytes and strict prefixes; here there is no
+/// payload to protect. Everything else that is accepted (payload, any field of a non-empty tensor, a negative dim) is a
+/// violation.
+bool reshaped_empty_tensor(const std::string& field, const bool original_empty, const std::vector<tensor_size_t>& dims_back)
+{
+    if (field != "dims" || !original_empty || dims_back.empty())
+    {
+        return false;
+    }
+    bool has_zero = false;
+    for (const auto dim : dims_back)
+    {
+        if (dim < 0)
+        {
+            return false;
+        }
+        has_zero = has_zero || dim == 0;
+    }
+    return has_zero;
+}
+
+std::vector<tensor_size_t> header_dims(const std::string& bytes, const size_t tensor_begin, const size_t rank)
+{
+    std::vector<tensor_size_t> dims;
+    for (size_t i = 0; i < rank; ++i)
+    {
+        int32_t dim = 0;
+        std::memcpy(&dim, bytes.data() + tensor_begin + 8 + 4 * i, sizeof(dim));
+        dims.push_back(dim);
+    }
+    return dims;
+}
+
 bool self_test()
 {
+    // (0) only the reshaped empty tensor is exempt from judgement
+    if (!reshaped_empty_tensor("dims", true, {1, 0}) || !reshaped_empty_tensor("dims", true, {0, 255, 3}) ||
+        reshaped_empty_tensor("dims", true, {-2147483647 - 1, 0}) || reshaped_empty_tensor("dims", true, {0, -1}) ||
+        reshaped_empty_tensor("dims", false, {1, 0}) || reshaped_empty_tensor("dims", true, {1, 2}) ||
+        reshaped_empty_tensor("hash", true, {1, 0}) || reshaped_empty_tensor("payload", true, {0}) ||
+        reshaped_empty_tensor("dims", true, {}))
+    {
+        return false;
+    }
     // (1) the judge must flag a reader that accepts a strict prefix (here: a reader that reads nothing)
     const std::string bytes = "0123456789";
     const auto        lazy  = guarded(bytes.data(), 4, [](std::istream&) {});
@@ -1658,28 +1729,39 @@ int main(int argc, char** argv)
                     {
                         ++r.nontrivial;
                     }
-                    local[std::string(name(res.what)) + "/" + field] += 1;
-                    if (is_silent_success(res))
+                    if (!is_silent_success(res))
                     {
-                        // decode the (corrupted) dims field for the report
-                        std::vector<double> cdims;
-                        bool                negative = false;
-                        for (size_t i = 0; i < e->rank; ++i)
-                        {
-                            int32_t dim = 0;
-                            std::memcpy(&dim, bytes.data() + 8 + 4 * i, sizeof(dim));
-                            cdims.push_back(dim);
-                            negative = negative || dim < 0;
-                        }
+                        local[std::string(name(res.what)) + "/" + field] += 1;
+                        continue;
+                    }
+                    // accepted: what did the reader produce?
+                    const auto dims_back = e->read_back_dims(bytes.data(), len);
+                    if (reshaped_empty_tensor(field, e->empty_tensor, dims_back))
+                    {
+                        local["accepted:empty-tensor-reshaped(not judged)/" + field] += 1;
+                        --r.nontrivial; // not judged => not counted
+                        continue;
+                    }
+                    local["accepted/" + field] += 1;
+                    {
+                        const auto          hdims    = header_dims(bytes, 0, e->rank);
+                        std::vector<double> cdims(hdims.begin(), hdims.end());
+                        const bool          negative = std::any_of(dims_back.begin(), dims_back.end(), [](const auto d) { return d < 0; });
+                        // NB: an accepted payload change is a collision of the content hash: the key names the exact input
+                        //     (the corpus content is a fixed function of the case number), so that a recorded collision never
+                        //     hides another one
                         const auto key = field == "dims" && e->empty_tensor
                                            ? std::string("corrupt:accepted:dims:empty-tensor") + (negative ? ":negative-dim" : "")
+                                       : field == "payload"
+                                           ? "corrupt:accepted:payload:" + e->name + "@" + std::to_string(p) + ":" + PATTERN_NAMES[pattern]
                                            : "corrupt:accepted:" + field;
                         r.violation(key, "co:" + std::to_string(index),
                                     jobj({{"object", jstr(e->name)}, {"stream_bytes", jint(len)}, {"byte_offset", jint(p)},
-                                          {"field", jstr(field)}, {"original_byte", jint(ub)},
+                                          {"field", jstr(field)}, {"pattern", jstr(PATTERN_NAMES[pattern])}, {"original_byte", jint(ub)},
                                           {"corrupted_byte", jint(static_cast<unsigned char>(bytes[p]))},
                                           {"header_hex", jstr(hex(bytes, 0, 20 + 4 * e->rank))},
                                           {"dims_in_corrupted_header", jarr_num(cdims)},
+                                          {"dims_read_back", jarr_num(dims_back)},
                                           {"observed", jstr("corrupted stream read successfully")},
                                           {"expected", jstr("failed stream")}}));
                     }
@@ -1735,6 +1817,8 @@ int main(int argc, char** argv)
                 uint32_t rank = 0;
                 std::memcpy(&rank, bytes.data() + span.begin + 4, sizeof(rank));
                 const bool empty = (span.end - span.begin) == 20 + 4 * static_cast<size_t>(rank);
+                uint32_t   iscalar = 0;
+                std::memcpy(&iscalar, bytes.data() + span.begin + 8 + 4 * static_cast<size_t>(rank), sizeof(iscalar));
                 for (size_t p = span.begin; p < span.end; ++p)
                 {
                     if (p % modulus != residue)
@@ -1754,17 +1838,36 @@ int main(int argc, char** argv)
                         {
                             ++r.nontrivial;
                         }
-                        local[std::string(name(res.what)) + "/nested-" + field] += 1;
-                        if (is_silent_success(res))
+                        if (!is_silent_success(res))
                         {
-                            const auto key = field == "dims" && empty ? std::string("corrupt:accepted:dims:empty-tensor:nested-in-" + e->kind)
-                                                                      : "corrupt:accepted:nested-in-" + e->kind + ":" + field;
+                            local[std::string(name(res.what)) + "/nested-" + field] += 1;
+                            continue;
+                        }
+                        // NB: the container was accepted, so the nested reader resized to exactly the dims of the altered header
+                        const auto hdims = header_dims(bytes, span.begin, rank);
+                        if (reshaped_empty_tensor(field, empty, hdims))
+                        {
+                            local["accepted:empty-tensor-reshaped(not judged)/nested-" + field] += 1;
+                            --r.nontrivial; // not judged => not counted
+                            continue;
+                        }
+                        local["accepted/nested-" + field] += 1;
+                        {
+                            const bool negative = std::any_of(hdims.begin(), hdims.end(), [](const auto d) { return d < 0; });
+                            const auto key = field == "dims" && empty ? std::string("corrupt:accepted:dims:empty-tensor") +
+                                                                            (negative ? ":negative-dim" : "") + ":nested-in-" + e->kind
+                                      : field == "payload"
+                                          ? "corrupt:accepted:payload:" + e->name + "/" + std::to_string(iscalar) + "-byte-scalar" + dims_text(hdims) +
+                                                "@" + std::to_string(p) + ":" + PATTERN_NAMES[pattern] + ":nested-in-" + e->kind
+                                          : "corrupt:accepted:nested-in-" + e->kind + ":" + field;
                             r.violation(key, "cn:" + std::to_string(index),
                                         jobj({{"object", jstr(e->name)}, {"stream_bytes", jint(len)}, {"byte_offset", jint(p)},
                                               {"nested_object", jstr(span.what)}, {"nested_begin", jint(span.begin)},
-                                              {"nested_end", jint(span.end)}, {"field", jstr(field)}, {"original_byte", jint(ub)},
+                                              {"nested_end", jint(span.end)}, {"field", jstr(field)},
+                                              {"pattern", jstr(PATTERN_NAMES[pattern])}, {"original_byte", jint(ub)},
                                               {"corrupted_byte", jint(static_cast<unsigned char>(bytes[p]))},
                                               {"tensor_header_hex", jstr(hex(bytes, span.begin, 20 + 4 * static_cast<size_t>(rank)))},
+                                              {"dims_in_corrupted_header", jarr_num(hdims)},
                                               {"observed", jstr("container stream with a corrupted tensor read successfully")},
                                               {"expected", jstr("exception or failed stream")}}));
                         }
